@@ -57,7 +57,12 @@ fn main() {
             }
             "--replay" => {
                 i += 1;
-                replay = Some(PathBuf::from(args.get(i).cloned().unwrap_or_else(|| machinery("--replay <file>"))));
+                let p = PathBuf::from(args.get(i).cloned().unwrap_or_else(|| machinery("--replay <file>")));
+                // relative paths are relative to where the wrapper was called from
+                replay = Some(match (p.is_relative(), std::env::var("VCHECK_CWD")) {
+                    (true, Ok(cwd)) => PathBuf::from(cwd).join(p),
+                    _ => p,
+                });
             }
             s if id.is_none() => id = Some(s.to_string()),
             s => machinery(&format!("unexpected argument {s}")),
